@@ -7,6 +7,14 @@ Layers
   2. correspondence: `gen-selfcheck` (generated Lean terms evaluated by the driver over Rat vs the
      live Python helpers, exact), `nl.assemble` (model with the formal derivative of a polynomial
      integrand on the implementation's own basis data vs `NonlinearForm._assemble`);
+     FALLBACK: a helper whose source left the translator's AST subset (a loop over an index table, a
+     comprehension, a private `*args` utility, ...) is not re-translated: its Lean definition is KEPT from
+     the last successful translation (marked `-- KEPT ...` in the generated file), so the theorems then
+     speak about that older formula, and the ONLY tie of that formula to the live code is the exact
+     correspondence `gen-selfcheck[<helper>]` (run with three times the test points).  `ctx.translator_failed`
+     records this; core reports it as the note `translator_not_applicable` if that correspondence ran and
+     agrees (and the Lean modules build), as a broken obligation otherwise.  A helper that cannot be
+     translated and has no previous definition is a broken obligation as before;
   3. search: helpers vs numpy.linalg / explicit loops on random tensors of every admissible
      shape, both variants; NonlinearForm on generated meshes x elements x a grammar of smooth
      integrands: residual = -LinearForm, Jacobian = hand-linearised BilinearForm (symbolic
@@ -66,9 +74,21 @@ def live_args(variant, specs, arrays):
     return out
 
 
-def helper_selfcheck(ctx, results):
+def helper_selfcheck(ctx, results, kept=None):
     """correspondence `gen-selfcheck`: the translator is under test -- the generated Lean terms,
-    evaluated by the driver on rational inputs, against the live Python helper"""
+    evaluated by the driver on rational inputs, against the live Python helper.
+
+    `kept` (name -> dict(variant, fname, specs, lshape, ...), from `genhelpers.generate.kept_info`): helpers
+    whose Lean term was NOT translated now but kept from the last successful translation.  For them this
+    comparison is the only tie between the term and the live code: it runs with three times the repetitions
+    and is recorded per helper as `gen-selfcheck[<name>]` in addition to the aggregate `gen-selfcheck`."""
+    kept = kept or {}
+
+    def corr(name, is_kept, ok, inp, model, impl):
+        ctx.corr("gen-selfcheck", ok, inp, model, impl)
+        if is_kept:
+            ctx.corr(f"gen-selfcheck[{name}]", ok, inp, model, impl)
+        return ok
     if not ctx.driver.available():
         ctx.broken.append({"kind": "driver-missing"})
         return
@@ -82,18 +102,26 @@ def helper_selfcheck(ctx, results):
     if not isinstance(names, list):
         ctx.broken.append({"kind": "driver", "op": "helper.names", "out": names})
         return
-    for n in results:
+    items = [(n, {"variant": r["variant"], "fname": r["fname"], "specs": r["specs"],
+                  "lshape": tuple(r["value"].lshape)}, False) for n, r in results.items()]
+    items += [(n, {"variant": k["variant"], "fname": k["fname"], "specs": k["specs"],
+                   "lshape": tuple(k["lshape"])}, True) for n, k in kept.items() if n not in results]
+    for n, _, is_kept in items:
         if n not in names:
-            ctx.corr("gen-selfcheck", False, {"helper": n}, "absent from the driver's table (stale build?)", None)
+            corr(n, is_kept, False, {"helper": n}, "absent from the driver's table (stale build?)", None)
     reps = ctx.scale(3, 12)
     trail = (2, 2)
     reqs, post = [], []
-    for name, r in results.items():
+    for name, r, is_kept in items:
         if name not in names:
             continue
         mod = NH if r["variant"] == "np" else JH
-        fn = getattr(mod, r["fname"])
-        for rep in range(reps):
+        fn = getattr(mod, r["fname"], None)
+        if fn is None:
+            corr(name, is_kept, False, {"helper": name}, "kept Lean term",
+                 f"{mod.__name__}.{r['fname']} does not exist")
+            continue
+        for rep in range(3 * reps if is_kept else reps):
             arrays = []
             for sp in r["specs"]:
                 if sp[0] == "T":
@@ -114,11 +142,13 @@ def helper_selfcheck(ctx, results):
                 ctx.violation(f"helper {r['variant']}:{r['fname']} raised {exc_kind(ex)} on an admissible input",
                               {"helper": name, "args": [[a.tolist() for a in arrs] for arrs in arrays],
                                "err": repr(ex)}, {"what": "helper-raise", "helper": r["fname"]})
+                if is_kept:
+                    ctx.corr(f"gen-selfcheck[{name}]", False, {"helper": name}, "kept Lean term", repr(ex))
                 continue
-            lshape = r["value"].lshape
+            lshape = r["lshape"]
             if out.shape != tuple(lshape) + trail:
-                ctx.corr("gen-selfcheck", False, {"helper": name}, {"shape": list(lshape) + list(trail)},
-                         {"shape": list(out.shape)})
+                corr(name, is_kept, False, {"helper": name}, {"shape": list(lshape) + list(trail)},
+                     {"shape": list(out.shape)})
                 continue
             for t in np.ndindex(*trail):
                 flat_args = []
@@ -127,14 +157,14 @@ def helper_selfcheck(ctx, results):
                         sub = a[(Ellipsis,) + t]
                         flat_args.append([qstr(v) for v in np.asarray(sub).reshape(-1).tolist()])
                 reqs.append({"op": "helper.eval", "name": name, "args": flat_args})
-                post.append((name, r, [a[(Ellipsis,) + t].tolist() for arrs in arrays for a in arrs],
+                post.append((name, r, is_kept, [a[(Ellipsis,) + t].tolist() for arrs in arrays for a in arrs],
                              np.asarray(out[(Ellipsis,) + t]).reshape(-1).tolist()))
     if not reqs:
         return
     outs = ctx.driver.run(reqs)
-    for (name, r, inp, impl), o in zip(post, outs):
+    for (name, r, is_kept, inp, impl), o in zip(post, outs):
         if not isinstance(o, list):
-            ctx.corr("gen-selfcheck", False, {"helper": name, "args": inp}, o, impl)
+            corr(name, is_kept, False, {"helper": name, "args": inp}, o, impl)
             continue
         model = unq(o)
         if r["fname"] == "inv":
@@ -142,8 +172,10 @@ def helper_selfcheck(ctx, results):
                                                  for a, b in zip(model, impl))
         else:
             ok = len(model) == len(impl) and all(a == Fraction(b) for a, b in zip(model, impl))
-        ctx.corr("gen-selfcheck", ok, {"helper": name, "args": inp}, [str(a) for a in model], impl)
+        corr(name, is_kept, ok, {"helper": name, "args": inp}, [str(a) for a in model], impl)
         ctx.count("gen-selfcheck:" + r["variant"])
+        if is_kept:
+            ctx.count("gen-selfcheck:kept-definitions")
 
 
 # ---- independent oracles (pointwise definitions, plain loops) ---------------
@@ -1513,6 +1545,12 @@ def run(ctx):
                     "translator gens/helpers.py (restricted-AST symbolic execution of both helper modules, re-run on "
                     "the live source every time; itself under test by the correspondence gen-selfcheck: generated "
                     "Lean terms evaluated by the driver vs the live Python functions, exact)",
+                    "fallback of that translator: for a helper whose live source is outside its AST subset the Lean "
+                    "term is kept textually from the last successful translation (listed under "
+                    "translator_not_applicable / kept_helper_terms when it happens); the theorems then are about "
+                    "that last translated formula, and its tie to the live code is ONLY the exact correspondence "
+                    "gen-selfcheck[<helper>] on random dyadic rationals (3x the points of a translated helper; "
+                    "1e-12 relative for inv, whose live result is a float quotient), not a reading of the source",
                     "NumPy / JAX broadcasting over trailing axes and einsum's ellipsis semantics (exercised by the "
                     "search on every trailing shape, not proved)",
                     "JAX contract: jax.linearize / jax.jvp return the value and the true directional derivative, "
@@ -1528,15 +1566,28 @@ def run(ctx):
                         "skfem.autodiff.helpers offers no inv / cross / curl / identity / inner: for these only the "
                         "NumPy variant exists and is checked"]
     # ---- 0. translator
-    results, failures = {}, []
+    results, failures, kept, kept_info = {}, [], [], {}
     try:
         changed, results, failures = genhelpers.generate()
+        kept = list(getattr(genhelpers.generate, "kept", []))
+        kept_info = dict(getattr(genhelpers.generate, "kept_info", {}))
         ctx.notes["generated_files_changed"] = bool(changed)
         ctx.notes["generated_helper_terms"] = len(results)
+        if kept:
+            ctx.notes["kept_helper_terms"] = {n: {"translator": msg, "kept_from": kept_info.get(n, {}).get("source")}
+                                              for n, msg in kept}
     except Exception as ex:
         ctx.broken.append({"kind": "translator", "what": "helper modules could not be translated", "err": repr(ex)})
     for name, msg in failures:
+        # not translated and no definition to fall back on: the generated file lacks the term
         ctx.broken.append({"kind": "translator", "what": f"tie broken: {name}", "err": msg})
+    for name, msg in kept:
+        # not translated, Lean term kept from the last successful translation: green iff the exact
+        # correspondence of exactly this helper ran and agrees (decided by core at finish())
+        if name in kept_info:
+            ctx.translator_failed(f"helper {name}: {msg}", msg, [f"gen-selfcheck[{name}]"])
+        else:
+            ctx.broken.append({"kind": "translator", "what": f"tie broken: {name}", "err": msg})
     # ---- 1. proof
     if not getattr(ctx, "no_lean", False):
         ctx.prove(["SkfemVerif.Props.C20"], ["SkfemVerif/Props/C20.lean"])
@@ -1547,8 +1598,8 @@ def run(ctx):
     except Exception as ex:
         ctx.violation("helper search raised " + exc_kind(ex), {"err": repr(ex)}, {"what": "helper-raise"})
     log(f"[C20] helper search done at {ctx.elapsed():.1f}s")
-    if results:
-        helper_selfcheck(ctx, results)
+    if results or kept_info:
+        helper_selfcheck(ctx, results, kept_info)
     log(f"[C20] gen-selfcheck done at {ctx.elapsed():.1f}s")
     # ---- 3. NonlinearForm
     nl_api_checks(ctx)
